@@ -3,19 +3,28 @@ from harness import common as C
 from harness import arrays
 
 PROPERTY = "C17"
-LEAN_TARGETS = ["VectorModel.Props.C17"]
-THEOREM_FILES = ["VectorModel/Props/C17.lean"]
+LEAN_TARGETS = ["VectorModel.Props.C17", "VectorModel.Glue.Reduce", "VectorModel.Props.C17Axis"]
+THEOREM_FILES = ["VectorModel/Props/C17.lean", "VectorModel/Props/C17Axis.lean"]
 NEEDS_TRANSLATOR = True
 
 
 def correspondence(ctx):
     problems, stats, samples = arrays.c17_run(ctx)
+    # AXIS model (Glue/Reduce.lean): shapes up to 3-d incl. length-one and size-0 axes, every axis spelling (omitted / None / ints /
+    # negative / tuples / out of range), keepdims, 13 call spellings, jagged Awkward arrays - the Lean driver predicts class, shape /
+    # list structure and (integer) values, compared request by request with the real reducers
+    from harness import reduce as _reduce
+    rp, rst = _reduce.run(ctx)
+    problems = problems + [("axis-model:" + str(k), str(d)) for k, d in rp]
+    stats.update({"axis_model_" + k: v for k, v in rst.items() if isinstance(v, int)})
     seen, fails = set(), []
     for k, d in problems:
         if k in seen:
             continue
         seen.add(k)
-        fails.append({"key": k, "what": d[:400], "code": replay_code(ctx.seed, ctx.tier, k)})
+        fails.append({"key": k, "what": d[:400], "code": replay_code(ctx.seed, ctx.tier, k) if not k.startswith("axis-model:") else (
+            "import sys; sys.path.insert(0, %r); sys.path.insert(0, %r)\nfrom harness import reduce\nclass X: seed=%d; tier=%r\n"
+            "problems, _ = reduce.run(X)\nassert not problems, problems[0]\n" % (C.VERIF, C.VERIF + "/tools", ctx.seed, ctx.tier))})
     stats["traces_validated_against_impl"] = sum(v for v in stats.values() if isinstance(v, int))
     return {"ok": not problems, "disagreements": [f"{k}: {d}"[:300] for k, d in problems[:12]], "failing_inputs": fails[:6],
             "stats": stats, "samples": samples}
